@@ -286,6 +286,14 @@ Definition dec_obs_ok (src : bytes) (cls : N) (rs : list N) : bool :=
   | Panic => cls =? 2
   end.
 
+(* Transform called directly with a given destination capacity.  C08 observes the
+   codec at Encoder.Bytes / Decoder.Bytes; at this level it only demands "no panic",
+   and whatever is returned must be what Bytes returns.  Reporting ErrShortDst
+   (cls 3) although the output would fit merely makes transform.Bytes retry, so
+   it is tolerated; octets returned into too small a destination are not. *)
+Definition cap_obs_ok {A} (eq : A -> A -> bool) (x : outcome A) (cls : N) (v : A) : bool :=
+  (cls =? 3) && negb (is_panic x) || out_is eq x cls v.
+
 (* --- the code before the fix: commits (for the ..._before_fix witnesses) -- *)
 (* D13: inverse table built over 256 slots (128 unused slots hold rune 0), ESC slot not skipped *)
 Definition forward_lookup_legacy (r : N) : option N :=
